@@ -1,3 +1,427 @@
-import ArvVerif.Model.C05
+/-
+C05 — keep-balance never trashes a replica that is still needed or too new.
+
+All theorems are about `balanceBlock env classes sorter mounts reps` (Model/C05.lean) for ANY number
+of services, mounts and classes, any flags, replication counts, device ids and timestamps, and for
+EVERY behaviour of the unstable per-class sort: `sorter` is arbitrary, the only hypothesis
+(`BalanceOK` / `PlanOK`) is that each of its calls during the run returned a permutation of its
+input that is sorted w.r.t. the code's comparator. `plan` adds cleanupMounts and setupLookupTables
+in front.
+
+Findings. `C05_trash_safe_Full` (the central clause at full strength) is FALSE of the model and of
+the code (F1, F2 — `C05_trash_safe_full_fails`); it is proved under one mount per server and no
+device mounted twice (`C05_trash_safe_partial`). `C05_lost_Full` is false when no mount is writable
+(F12 — `C05_lost_full_fails`); `C05_lost_reported` is the exact characterisation.
+-/
+import ArvVerif.Proofs.C05Lost
+import ArvVerif.Proofs.C05Setup
+import ArvVerif.Proofs.C05Witness
 namespace ArvVerif.C05
+
+variable (env : Env) (classes : List Class) (sorter : Class → List Slot → List Slot)
+  (mounts : List Mount) (reps : List Replica)
+
+/-- `plan`'s sort calls all returned sorted permutations -/
+def PlanOK (env : Env) (dflt : Class) (sorter : Class → List Slot → List Slot)
+    (svcs : List RawService) (reps : List Replica) : Prop :=
+  BalanceOK env (classesOf dflt (cleanupMounts svcs)) sorter (effMounts dflt (cleanupMounts svcs)) reps
+
+/-! ## trash: age -/
+
+/-- Every emitted trash names a slot that holds a replica with exactly that mtime, and the mtime is
+older than `MinMtime` (now − BlobSignatureTTL). No hypothesis at all (not even on the sort). -/
+theorem C05_no_trash_newer_than_ttl (p : Slot × Change) (t : Int)
+    (hp : p ∈ (balanceBlock env classes sorter mounts reps).changes) (ht : p.2 = .trash t) :
+    p.1.repl = some t ∧ t < env.minMtime := by
+  have h := mem_changes hp
+  have := change_trash (h.2 ▸ ht)
+  exact ⟨this.1, this.2.2⟩
+
+example : ∃ p ∈ okResult.changes, p.2 = .trash 800 := by decide
+
+/-! ## trash: read-only -/
+
+/-- No trash names a read-only mount (read-only as balanceBlock sees it, i.e. after
+setupLookupTables merged the server flag into the mount flag). -/
+theorem C05_no_trash_on_readonly_mount (hok : BalanceOK env classes sorter mounts reps)
+    (p : Slot × Change) (t : Int)
+    (hp : p ∈ (balanceBlock env classes sorter mounts reps).changes) (ht : p.2 = .trash t) :
+    p.1.mnt.ro = false ∧ p.1.mnt ∈ mounts := by
+  have h := mem_changes hp
+  have htr := change_trash (h.2 ▸ ht)
+  have hq := final_forall (fun s => (s.repl.isSome = true → s.mnt.ro = true → s.want = true) ∧ s.mnt ∈ mounts)
+    (fun s hs => ⟨fun _ _ => rfl, hs.2⟩) hok
+    (fun s hs => by
+      have := mem_initSlots hs
+      refine ⟨fun h1 h2 => ?_, this.1⟩
+      rw [this.2.2, h1, h2]; rfl) p.1 h.1
+  refine ⟨?_, hq.2⟩
+  cases hro : p.1.mnt.ro with
+  | false => rfl
+  | true =>
+    have := hq.1 (by rw [htr.1]; rfl) hro
+    rw [htr.2.1] at this; cases this
+
+/-- End to end: a trash computed from the discovered layout names a mount that is not read-only and
+sits on a service that is not read-only. -/
+theorem C05_no_trash_on_readonly (dflt : Class) (svcs : List RawService)
+    (hok : PlanOK env dflt sorter svcs reps) (p : Slot × Change) (t : Int)
+    (hp : p ∈ (plan env dflt sorter svcs reps).changes) (ht : p.2 = .trash t) :
+    ∃ sv ∈ svcs, ∃ rm ∈ sv.mounts, rm.id = p.1.mnt.id ∧ sv.id = p.1.mnt.srv ∧ rm.ro = false ∧ sv.ro = false := by
+  have h := C05_no_trash_on_readonly_mount env _ sorter _ reps hok p t hp ht
+  obtain ⟨s, hs, rm, hrm, e⟩ := mem_effMounts.1 h.2
+  obtain ⟨s0, hs0, m0, hm0, e1, e2, rfl, _⟩ := mem_cleanup_mount hs hrm
+  have hro : m0.ro = false ∧ s0.ro = false := by
+    have := h.1
+    rw [e] at this
+    simpa [effMount, e2] using this
+  refine ⟨s0, hs0, m0, hm0, ?_, ?_, hro.1, hro.2⟩
+  · rw [e]; simp [effMount]
+  · rw [e]; simp [effMount, e1]
+
+/-- non-vacuity: on a layout with read-only mounts and a read-only service a trash is still issued
+somewhere (service 0), and nothing is trashed on the read-only ones -/
+example :
+    PlanOK roEnv 1 (wSorter roEnv) rawLayout roReps ∧
+    ((plan roEnv 1 (wSorter roEnv) rawLayout roReps).changes.map (fun p => (p.1.mnt.id, p.2))) =
+      [(2, .stay), (0, .trash 900), (3, .stay)] := by
+  refine ⟨?_, by decide⟩
+  unfold PlanOK BalanceOK
+  rw [show classesOf 1 (cleanupMounts rawLayout) = [1, 3] from by decide]
+  simp only [RunOK]
+  decide
+
+/-! ## trash: under-replication -/
+
+/-- If the code's own under-replication test fires for some class of the loop (the in-class
+replication it counts is below desired), no trash is emitted for the block at all. -/
+theorem C05_underreplicated_no_trash (hok : BalanceOK env classes sorter mounts reps)
+    (c : Class) (hc : c ∈ classes) (hd : env.desired c ≠ 0)
+    (hu : classRepl c (initSlots mounts reps) < env.desired c) :
+    ∀ p ∈ (balanceBlock env classes sorter mounts reps).changes, ∀ t, p.2 ≠ .trash t := by
+  intro p hp t ht
+  have h := mem_changes hp
+  have htr := change_trash (h.2 ▸ ht)
+  have hur : (balanceBlock env classes sorter mounts reps).final.underrep = true :=
+    runClasses_underrep env sorter c classes _ hok hc hd hu
+  -- every final slot with a replica is wanted
+  have hs := h.1
+  unfold finalWant at hs
+  obtain ⟨s0, _, e⟩ := List.mem_map.1 hs
+  have hr0 : s0.repl = some t := by rw [← e] at htr; simpa using htr.1
+  have hw : (finalSlot (balanceBlock env classes sorter mounts reps).final s0).want = true := by
+    unfold finalSlot
+    rw [hr0]
+    simp only [hur, Bool.true_or, if_true]
+  rw [e, htr.2.1] at hw
+  cases hw
+
+/-- …and that test is sound for the physical reading when mounts are pairwise apart: a class whose
+replication over distinct devices is below desired blocks every trash. (False with a device
+mounted on two servers: F1.) -/
+theorem C05_underreplicated_sound (hok : BalanceOK env classes sorter mounts reps)
+    (hap : mounts.Pairwise Apart) (c : Class) (hc : c ∈ classes) (hd : env.desired c ≠ 0)
+    (hu : physRepl c (balanceBlock env classes sorter mounts reps).heldBefore < env.desired c) :
+    ∀ p ∈ (balanceBlock env classes sorter mounts reps).changes, ∀ t, p.2 ≠ .trash t := by
+  apply C05_underreplicated_no_trash env classes sorter mounts reps hok c hc hd
+  have hap0 : ((initSlots mounts reps).map (·.mnt)).Pairwise Apart := by rw [initSlots_mnt]; exact hap
+  have hrel := runClasses_coreRel env sorter classes _ hok
+  have hrelF := (coreRel_finalWant (balanceBlock env classes sorter mounts reps).final).trans hrel
+  have hapF := apart_pairwise_of_perm (coreRel_mnt_perm hrelF) hap0
+  have e := physRepl_before env reps c _ (balanceBlock env classes sorter mounts reps).final hapF
+  have e' : physRepl c (balanceBlock env classes sorter mounts reps).heldBefore =
+      ssum (haveTerm c) (finalWant (balanceBlock env classes sorter mounts reps).final) := e
+  rw [e', haveSum_coreRel c hrelF, ← classRepl_eq_ssum] at hu
+  exact hu
+
+/-- non-vacuity: desired 3 with two replicas (one badly placed and old) — nothing is trashed -/
+example :
+    let env := wEnv (fun c => if c = 0 then 3 else 0)
+    BalanceOK env [0] (wSorter env) okMounts okReps ∧ okMounts.Pairwise Apart ∧
+    physRepl 0 (balanceBlock env [0] (wSorter env) okMounts okReps).heldBefore = 3 ∧
+    BalanceOK env [0] (wSorter env) okMounts [⟨2, 2, 900⟩, ⟨3, 3, 800⟩] ∧
+    physRepl 0 (balanceBlock env [0] (wSorter env) okMounts [⟨2, 2, 900⟩, ⟨3, 3, 800⟩]).heldBefore = 2 := by
+  refine ⟨?_, by unfold Apart; decide, by decide, ?_, by decide⟩ <;>
+  · unfold BalanceOK; simp only [RunOK]; decide
+
+/-! ## pulls -/
+
+/-- Every pull targets a writable mount of the layout that lacks the block, is emitted only when
+the block has a replica, and names as source the service of a replica (`blk.Replicas[0]`). -/
+theorem C05_pull_targets (hok : BalanceOK env classes sorter mounts reps)
+    (p : Slot × Change) (src : Option Nat)
+    (hp : p ∈ (balanceBlock env classes sorter mounts reps).changes) (hpull : p.2 = .pull src) :
+    p.1.mnt ∈ mounts ∧ p.1.mnt.ro = false ∧ replicaOn reps p.1.mnt.id = none ∧
+    ∃ r ∈ reps, src = some r.srv := by
+  have h := mem_changes hp
+  have hpl := change_pull (h.2 ▸ hpull)
+  have hq := final_forall (fun s => s.mnt ∈ mounts ∧ s.repl = replicaOn reps s.mnt.id)
+    (fun s hs => hs) hok (fun s hs => ⟨(mem_initSlots hs).1, (mem_initSlots hs).2.1⟩) p.1 h.1
+  obtain ⟨r, rest, hr, hsrc⟩ := hpl.2.2.2
+  exact ⟨hq.1, hpl.2.2.1, by rw [← hq.2]; exact hpl.1, r, by rw [hr]; exact List.mem_cons_self .., hsrc⟩
+
+example : okMounts.Pairwise Apart ∧ ∃ p ∈ okResult.changes, p.2 = .pull (some 1) := by
+  refine ⟨by unfold Apart; decide, by decide⟩
+
+/-! ## lost -/
+
+/-- Exactly when `lost` is reported: the block has no replica, some class of the loop has desired
+> 0, and some mount is writable. -/
+theorem C05_lost_reported (hok : BalanceOK env classes sorter mounts reps) (hid : DistinctIds mounts) :
+    (balanceBlock env classes sorter mounts reps).lost = true ↔
+      reps = [] ∧ (∃ c ∈ classes, env.desired c ≠ 0) ∧ ∃ m ∈ mounts, m.ro = false := by
+  constructor
+  · intro hl
+    unfold Result.lost at hl
+    obtain ⟨p, hp, hpl⟩ := List.any_eq_true.1 hl
+    have hpl' : p.2 = .lost := by simpa using hpl
+    have h := mem_changes hp
+    have hch := change_lost.1 (h.2 ▸ hpl')
+    refine ⟨hch.2.2, ?_, ?_⟩
+    · -- some class is active, otherwise nothing is ever wanted
+      apply Classical.byContradiction
+      intro hno
+      have hz : ∀ c ∈ classes, env.desired c = 0 := by
+        intro c hc
+        apply Classical.byContradiction
+        intro hne
+        exact hno ⟨c, hc, hne⟩
+      have hfin : (balanceBlock env classes sorter mounts reps).final =
+          { slots := initSlots mounts reps, utd := [], underrep := false } :=
+        runClasses_all_zero env sorter classes _ hz
+      have hs := h.1
+      rw [hfin] at hs
+      unfold finalWant at hs
+      obtain ⟨s0, hs0, e⟩ := List.mem_map.1 hs
+      have hr0 : s0.repl = none := by rw [← e] at hch; simpa using hch.1
+      have : finalSlot { slots := initSlots mounts reps, utd := [], underrep := false } s0 = s0 := by
+        unfold finalSlot; rw [hr0]
+      rw [this] at e
+      have hw0 := (mem_initSlots hs0).2.2
+      rw [hr0] at hw0
+      rw [← e] at hch
+      rw [hw0] at hch
+      cases hch.2.1
+    · have hinv : EmptyWantWritable (balanceBlock env classes sorter mounts reps).final :=
+        runClasses_inv env sorter EmptyWantWritable
+          (fun c b _ hS hI => classIter_emptyWantWritable env c _ b hS.1 hI) classes _ hok
+          (initSlots_emptyWantWritable mounts reps hid)
+      have hs := h.1
+      unfold finalWant at hs
+      obtain ⟨s0, hs0, e⟩ := List.mem_map.1 hs
+      have hr0 : s0.repl = none := by rw [← e] at hch; simpa using hch.1
+      have hfs : finalSlot (balanceBlock env classes sorter mounts reps).final s0 = s0 := by
+        unfold finalSlot; rw [hr0]
+      rw [hfs] at e
+      rw [← e] at hch
+      have hro := hinv.2 s0 hs0 hch.1 hch.2.1
+      have hm := runClasses_forall (fun s => s.mnt ∈ mounts) (fun s hs => hs) env sorter classes _ hok
+        (fun s hs => (mem_initSlots hs).1) s0 hs0
+      exact ⟨s0.mnt, hm, hro⟩
+  · rintro ⟨hreps, hact, ⟨m, hm, hro⟩⟩
+    subst hreps
+    have hnone0 : ∀ s ∈ initSlots mounts [], s.repl = none := by
+      intro s hs; rw [(mem_initSlots hs).2.1]; rfl
+    have hw0 : ∃ w ∈ initSlots mounts [], w.mnt.ro = false := by
+      refine ⟨{ mnt := m, repl := replicaOn [] m.id, want := (replicaOn [] m.id).isSome && m.ro }, ?_, hro⟩
+      unfold initSlots
+      exact List.mem_map.2 ⟨m, hm, rfl⟩
+    obtain ⟨s, hs, hw⟩ := runClasses_wants env sorter classes _ hok hnone0 hw0 hact
+    have hnone : s.repl = none :=
+      runClasses_forall (fun s => s.repl = none) (fun s hs => hs) env sorter classes _ hok hnone0 s hs
+    unfold Result.lost
+    rw [List.any_eq_true]
+    refine ⟨(finalSlot (balanceBlock env classes sorter mounts []).final s,
+      change env [] (finalSlot (balanceBlock env classes sorter mounts []).final s)), ?_, ?_⟩
+    · unfold balanceBlock
+      exact List.mem_map.2 ⟨_, List.mem_map.2 ⟨s, hs, rfl⟩, rfl⟩
+    · have hfs : finalSlot (balanceBlock env classes sorter mounts []).final s = s := by
+        unfold finalSlot; rw [hnone]
+      rw [hfs, change_lost.2 ⟨hnone, hw, rfl⟩]
+      rfl
+
+/-- The property's wording at full strength: a referenced block (desired > 0 for a class of the
+loop) without any replica is reported lost. -/
+def C05_lost_Full : Prop :=
+  ∀ (env : Env) (classes : List Class) (sorter : Class → List Slot → List Slot) (mounts : List Mount),
+    BalanceOK env classes sorter mounts [] → DistinctIds mounts → (∃ c ∈ classes, env.desired c ≠ 0) →
+    (balanceBlock env classes sorter mounts []).lost = true
+
+/-- F12: with one read-only mount, desired 2 and no replica, nothing is reported. -/
+theorem C05_lost_full_fails : ¬ C05_lost_Full := by
+  intro h
+  have := h f12Env [0] (wSorter f12Env) f12Mounts
+    (by unfold BalanceOK; simp only [RunOK]; decide) (by unfold DistinctIds; decide) ⟨0, by decide, by decide⟩
+  revert this
+  decide
+
+/-- what does hold: lost is reported as soon as some mount is writable -/
+theorem C05_lost_partial (hok : BalanceOK env classes sorter mounts []) (hid : DistinctIds mounts)
+    (hact : ∃ c ∈ classes, env.desired c ≠ 0) (hw : ∃ m ∈ mounts, m.ro = false) :
+    (balanceBlock env classes sorter mounts []).lost = true :=
+  (C05_lost_reported env classes sorter mounts [] hok hid).2 ⟨rfl, hact, hw⟩
+
+example : BalanceOK okEnv [0] (wSorter okEnv) okMounts [] ∧ DistinctIds okMounts ∧
+    (balanceBlock okEnv [0] (wSorter okEnv) okMounts []).lost = true := by
+  refine ⟨?_, by unfold DistinctIds; decide, by decide⟩
+  unfold BalanceOK; simp only [RunOK]; decide
+
+/-! ## what is sent to keepstore -/
+
+/-- A trash request carries the bare hash (first 32 characters of the block id), the mtime that was
+observed for the replica on that mount (the last index entry naming it), and that mount's UUID;
+a pull request carries the bare hash, the URL of the service of `blk.Replicas[0]`, and the target
+mount's UUID. The JSON texts have exactly the keepstore field names. -/
+theorem C05_json_shape (hok : BalanceOK env classes sorter mounts reps)
+    (blkid hash size : List Char) (hb : blkid = hash ++ '+' :: size) (hl : hash.length = 32)
+    (uuidOf urlOf : Nat → List Char) :
+    (∀ s t, (s, t) ∈ (balanceBlock env classes sorter mounts reps).trashes →
+      let q := trashReq blkid uuidOf s t
+      q.locator = hash ∧ q.blockMtime = t ∧ replicaOn reps s.mnt.id = some t ∧ q.mountUUID = uuidOf s.mnt.id ∧
+      s.mnt ∈ mounts ∧
+      q.json = "{\"locator\":" ++ quote hash ++ ",\"block_mtime\":" ++ toString t ++ ",\"mount_uuid\":" ++
+        quote (uuidOf s.mnt.id) ++ "}") ∧
+    (∀ s src, (s, Change.pull (some src)) ∈ (balanceBlock env classes sorter mounts reps).changes →
+      let q := pullReq blkid uuidOf urlOf s src
+      q.locator = hash ∧ q.servers = [urlOf src] ∧ (∃ r ∈ reps, r.srv = src) ∧ q.mountUUID = uuidOf s.mnt.id ∧
+      q.json = "{\"locator\":" ++ quote hash ++ ",\"servers\":[" ++ quote (urlOf src) ++ "],\"mount_uuid\":" ++
+        quote (uuidOf s.mnt.id) ++ "}") := by
+  have hloc : locatorOf blkid = hash := by
+    unfold locatorOf; rw [hb, ← hl]; simp
+  constructor
+  · intro s t hst
+    have hp := mem_trashes.1 hst
+    have h := mem_changes hp
+    have htr := change_trash (show change env reps s = Change.trash t from h.2.symm)
+    have hq := final_forall (fun s => s.mnt ∈ mounts ∧ s.repl = replicaOn reps s.mnt.id)
+      (fun s hs => hs) hok (fun s hs => ⟨(mem_initSlots hs).1, (mem_initSlots hs).2.1⟩) s h.1
+    refine ⟨hloc, rfl, by rw [← hq.2]; exact htr.1, rfl, hq.1, ?_⟩
+    simp only [TrashReq.json, trashReq, hloc]
+  · intro s src hp
+    have hpl := C05_pull_targets env classes sorter mounts reps hok _ _ hp rfl
+    obtain ⟨r, hr, hsrc⟩ := hpl.2.2.2
+    refine ⟨hloc, rfl, ⟨r, hr, by simpa using hsrc.symm⟩, rfl, ?_⟩
+    simp only [PullReq.json, pullReq, hloc, List.map_cons, List.map_nil]
+    rfl
+
+example : (trashReq "acbd18db4cc2f85cedef654fccc4a4d8+3".toList (fun _ => "zzzzz-nyw5e-000000000000000".toList)
+    ⟨mkMount 0 0 0 [0], some 12345, false⟩ 12345).json =
+    "{\"locator\":\"acbd18db4cc2f85cedef654fccc4a4d8\",\"block_mtime\":12345,\"mount_uuid\":\"zzzzz-nyw5e-000000000000000\"}" := by
+  decide
+
+/-! ## cleanupMounts / setupLookupTables -/
+
+/-- After cleanupMounts no read-only mount shares a non-blank device with a writable mount; nothing
+else is dropped (a writable mount, or a mount whose device is not read-write anywhere, is kept); and
+every replication count is ≥ 1. -/
+theorem C05_cleanup_drops_ro_duplicates (svcs : List RawService) :
+    (∀ s ∈ cleanupMounts svcs, ∀ m ∈ s.mounts, m.ro = true → m.dev ≠ 0 →
+      ∀ s' ∈ cleanupMounts svcs, ∀ m' ∈ s'.mounts, m'.dev = m.dev → m'.ro = true) ∧
+    (∀ s0 ∈ svcs, ∀ m0 ∈ s0.mounts, (m0.ro = false ∨ (rwDevs svcs).contains m0.dev = false) →
+      ∃ s ∈ cleanupMounts svcs, s.id = s0.id ∧ s.ro = s0.ro ∧ fixRepl m0 ∈ s.mounts) ∧
+    (∀ s ∈ cleanupMounts svcs, ∀ m ∈ s.mounts, 1 ≤ m.repl) :=
+  ⟨cleanup_no_ro_duplicate svcs, fun s0 hs0 m0 hm0 h => cleanup_keeps svcs s0 hs0 m0 hm0 h, cleanup_repl_pos svcs⟩
+
+example : (cleanupMounts rawLayout).map (fun s => s.mounts.map (fun m => (m.id, m.repl))) = [[(0, 2)], [(2, 1)], [(3, 1)]] := by
+  decide
+
+/-- setupLookupTables: the mounts balanceBlock sees are the mounts of the services, read-only if the
+mount or its service is, in class `default` when they list none; `bal.classes` is `default` plus
+every listed class, sorted, without duplicates. -/
+theorem C05_setup_tables (dflt : Class) (svcs : List RawService) :
+    (∀ m, m ∈ effMounts dflt svcs ↔ ∃ s ∈ svcs, ∃ rm ∈ s.mounts, m = effMount dflt s rm) ∧
+    (∀ s rm, (effMount dflt s rm).ro = (rm.ro || s.ro) ∧
+      (effMount dflt s rm).classes = (if rm.classes.isEmpty then [dflt] else rm.classes)) ∧
+    (∀ c, c ∈ classesOf dflt svcs ↔ c = dflt ∨ ∃ m ∈ allRawMounts svcs, c ∈ m.classes) ∧
+    (classesOf dflt svcs).Pairwise (· ≤ ·) ∧ (classesOf dflt svcs).Nodup :=
+  ⟨fun _ => mem_effMounts, fun _ _ => ⟨rfl, rfl⟩, (classesOf_spec dflt svcs).1, (classesOf_spec dflt svcs).2.1,
+    (classesOf_spec dflt svcs).2.2⟩
+
+example : classesOf 1 (cleanupMounts rawLayout) = [1, 3] ∧
+    (effMounts 1 (cleanupMounts rawLayout)).map (fun m => (m.id, m.ro, m.classes)) =
+      [(0, false, [1]), (2, true, [1]), (3, true, [3])] := by decide
+
+/-! ## the central clause -/
+
+/-- mounts of one device agree on classes and replication (a device has one configuration) -/
+def DeviceConsistent (mounts : List Mount) : Prop :=
+  ∀ a ∈ mounts, ∀ b ∈ mounts, a.dev ≠ 0 → a.dev = b.dev → a.classes = b.classes ∧ a.repl = b.repl
+
+/-- `C05_trash_safe` at full strength: carrying out every computed trash request while no pull
+succeeds leaves each class of the loop with desired d > 0 at replication ≥ min(d, previous),
+counted over distinct physical devices — for every layout. -/
+def C05_trash_safe_Full : Prop :=
+  ∀ (env : Env) (classes : List Class) (sorter : Class → List Slot → List Slot) (mounts : List Mount)
+    (reps : List Replica),
+    BalanceOK env classes sorter mounts reps → DistinctIds mounts → DeviceConsistent mounts →
+    ∀ c ∈ classes, env.desired c ≠ 0 →
+      min (env.desired c) (physRepl c (balanceBlock env classes sorter mounts reps).heldBefore) ≤
+        physRepl c (balanceBlock env classes sorter mounts reps).heldAfter
+
+/-- the F1 layout (a device mounted on two servers) refutes the full statement: before 2, after 1 -/
+theorem C05_trash_safe_fails_F1 :
+    BalanceOK f1Env [0] (wSorter f1Env) f1Mounts f1Reps ∧ DistinctIds f1Mounts ∧ DeviceConsistent f1Mounts ∧
+    f1Mounts.Pairwise (fun a b => a.srv ≠ b.srv) ∧
+    physRepl 0 f1Result.heldBefore = 2 ∧ physRepl 0 f1Result.heldAfter = 1 := by
+  refine ⟨?_, by unfold DistinctIds; decide, by unfold DeviceConsistent; decide, by decide, by decide, by decide⟩
+  unfold BalanceOK; simp only [RunOK]; decide
+
+/-- the F2 layout (two mounts on one server, no shared device) refutes it too: before 2, after 1 -/
+theorem C05_trash_safe_fails_F2 :
+    BalanceOK f2Env [0, 1] (wSorter f2Env) f2Mounts f2Reps ∧ DistinctIds f2Mounts ∧ DeviceConsistent f2Mounts ∧
+    f2Mounts.Pairwise (fun a b => a.dev = b.dev → a.dev = 0) ∧
+    physRepl 1 f2Result.heldBefore = 2 ∧ physRepl 1 f2Result.heldAfter = 1 := by
+  refine ⟨?_, by unfold DistinctIds; decide, by unfold DeviceConsistent; decide, by decide, by decide, by decide⟩
+  unfold BalanceOK; simp only [RunOK]; decide
+
+theorem C05_trash_safe_full_fails : ¬ C05_trash_safe_Full := by
+  intro h
+  have w := C05_trash_safe_fails_F1
+  have := h f1Env [0] (wSorter f1Env) f1Mounts f1Reps w.1 w.2.1 w.2.2.1 0 (by decide) (by decide)
+  have e1 : physRepl 0 (balanceBlock f1Env [0] (wSorter f1Env) f1Mounts f1Reps).heldBefore = 2 := w.2.2.2.2.1
+  have e2 : physRepl 0 (balanceBlock f1Env [0] (wSorter f1Env) f1Mounts f1Reps).heldAfter = 1 := w.2.2.2.2.2
+  rw [e1, e2] at this
+  revert this
+  decide
+
+/-- the same from F2 alone: excluding shared devices is not enough -/
+theorem C05_trash_safe_full_fails_F2 : ¬ C05_trash_safe_Full := by
+  intro h
+  have w := C05_trash_safe_fails_F2
+  have := h f2Env [0, 1] (wSorter f2Env) f2Mounts f2Reps w.1 w.2.1 w.2.2.1 1 (by decide) (by decide)
+  have e1 : physRepl 1 (balanceBlock f2Env [0, 1] (wSorter f2Env) f2Mounts f2Reps).heldBefore = 2 := w.2.2.2.2.1
+  have e2 : physRepl 1 (balanceBlock f2Env [0, 1] (wSorter f2Env) f2Mounts f2Reps).heldAfter = 1 := w.2.2.2.2.2
+  rw [e1, e2] at this
+  revert this
+  decide
+
+/-- no device id is used by two mounts (blank ids are private) -/
+def NoSharedDevice (mounts : List Mount) : Prop := mounts.Pairwise (fun a b => a.dev = b.dev → a.dev = 0)
+/-- no two mounts on one server -/
+def OneMountPerServer (mounts : List Mount) : Prop := mounts.Pairwise (fun a b => a.srv ≠ b.srv)
+
+/-- `C05_trash_safe` for layouts with one mount per server and no shared device: for every class of
+the loop with desired d > 0, after executing all trashes (no pull succeeding) the replication of
+the class over distinct physical devices is ≥ min(d, what it was). Any number of services and
+classes, any flags/replication/timestamps, every behaviour of the unstable sort. -/
+theorem C05_trash_safe_partial (hok : BalanceOK env classes sorter mounts reps)
+    (hid : DistinctIds mounts) (hdev : NoSharedDevice mounts) (hsrv : OneMountPerServer mounts)
+    (c : Class) (hc : c ∈ classes) (hd : env.desired c ≠ 0) :
+    min (env.desired c) (physRepl c (balanceBlock env classes sorter mounts reps).heldBefore) ≤
+      physRepl c (balanceBlock env classes sorter mounts reps).heldAfter := by
+  apply trash_safe_of_apart env classes sorter mounts reps hok _ c hc hd
+  unfold DistinctIds at hid
+  unfold NoSharedDevice at hdev
+  unfold OneMountPerServer at hsrv
+  exact ((hid.and hsrv).and hdev).imp (fun {a b} h => ⟨h.1.1, h.1.2, h.2⟩)
+
+/-- non-vacuity: in the quadrant, a layout with a pull, a kept-because-new, a protected and a
+trashed replica; replication 2 before among old+new, 2 after -/
+example : BalanceOK okEnv [0] (wSorter okEnv) okMounts okReps ∧ DistinctIds okMounts ∧ NoSharedDevice okMounts ∧
+    OneMountPerServer okMounts ∧ physRepl 0 okResult.heldBefore = 3 ∧ physRepl 0 okResult.heldAfter = 2 ∧
+    okResult.changes.map (fun p => (p.1.mnt.id, p.2)) = [(0, .pull (some 1)), (1, .stay), (2, .stay), (3, .trash 800)] := by
+  refine ⟨?_, by unfold DistinctIds; decide, by unfold NoSharedDevice; decide, by unfold OneMountPerServer; decide,
+    by decide, by decide, by decide⟩
+  unfold BalanceOK; simp only [RunOK]; decide
+
 end ArvVerif.C05
